@@ -91,6 +91,13 @@ impl VAddrsSub {
     }
 }
 
+/// An accepted TCP connection (`MeteredStream::accept`).
+pub struct VTcp(pub(crate) MeteredStream);
+
+pub async fn accept_tcp(ctx: &ctx::Ctx, listener: &mut net::tcp::Listener) -> Result<VTcp, String> {
+    Ok(VTcp(MeteredStream::accept(ctx, listener).await.map_err(|e| format!("accept: {e:#}"))?))
+}
+
 /// The gossip network state (connection pools, config) without the listener loop.
 #[derive(Clone)]
 pub struct VGossip(pub(crate) Arc<Network>);
@@ -106,12 +113,11 @@ impl VGossip {
     pub fn outbound_keys(&self) -> Vec<node::PublicKey> {
         self.0.outbound.current().keys().cloned().collect()
     }
-    /// Accepts one TCP connection and handles it like the node's listener loop does for the
-    /// gossip endpoint: `preface::accept`, then `run_inbound_stream`. Returns when the connection
-    /// ends (or is refused).
-    pub async fn accept_one(&self, ctx: &ctx::Ctx, listener: &mut net::tcp::Listener) -> Result<(), String> {
-        let stream = MeteredStream::accept(ctx, listener).await.map_err(|e| format!("accept: {e:#}"))?;
-        let (stream, endpoint) = preface::accept(ctx, stream).await.map_err(|e| format!("preface: {e:#}"))?;
+    /// Handles an accepted TCP connection like the node's listener loop does for the gossip
+    /// endpoint: `preface::accept`, then `run_inbound_stream`. Returns when the connection ends
+    /// (or is refused).
+    pub async fn handle_inbound(&self, ctx: &ctx::Ctx, tcp: VTcp) -> Result<(), String> {
+        let (stream, endpoint) = preface::accept(ctx, tcp.0).await.map_err(|e| format!("preface: {e:#}"))?;
         if endpoint != preface::Endpoint::GossipNet {
             return Err("wrong endpoint".into());
         }
